@@ -8,6 +8,8 @@ import math
 
 import numpy as np
 
+RESTOL_H = 0.5  # the residual tolerance of the scripted harness (vf.env.block.RESTOL)
+
 
 def blocks_of(cur):
     """-> list of blocks; block = list of attempts (dict) in slot order."""
@@ -189,6 +191,13 @@ def check_restarts(cur):
         # `must` the strict one (has to restart)
         requested = [i for i, a in enumerate(blk) if (a['post']['est'] is not None and ad and a['post']['est'] >= ad.get('e_tol', 1.0)) or a['post']['rreq']]
         must = [i for i, a in enumerate(blk) if (a['post']['est'] is not None and ad and a['post']['est'] > ad.get('e_tol', 1.0)) or a['post']['rreq']]
+        # "collocation problem not converged" (converged-collocation family with restart_at_maxiter): a step that used up its
+        # sweeps with a residual above the tolerance is rejected whatever its estimate
+        nonconv = [i for i, a in enumerate(blk) if cfg.get('nonconv') and a.get('iter_at_post', 0) >= K and a['post']['residual'] is not None and a['post']['residual'] > RESTOL_H]
+        if nonconv:
+            requested = sorted(set(requested) | set(nonconv))
+            # a step behind a rejected one is recomputed anyway; its own verdict is not observable
+            must = sorted(set(must) | set(nonconv[:1]))
         # (a) restart position -> next block
         if r is not None:
             if from_first and r != 0:
@@ -224,6 +233,8 @@ def check_restarts(cur):
                 if est is None:
                     continue
                 accepted = r is None or i < r
+                if accepted and i in nonconv and not budget_exhausted:
+                    cur.v('accepted_although_not_converged', block=a['block'], slot=a['slot'], residual=a['post']['residual'])
                 # (d) accepted => estimate below tolerance unless the retry budget was exhausted
                 if accepted and est > e_tol and not budget_exhausted:
                     cur.v('accepted_above_tolerance', block=a['block'], slot=a['slot'], est=est)
@@ -242,7 +253,7 @@ def check_restarts(cur):
             # (f) a rejected step is retried with a smaller step unless a configured lower limit binds
             # (restarting from the first step: the rejected step is any step of the block whose estimate is above the tolerance;
             # the whole block, and with it that step, is recomputed with the next block's step size)
-            rejected_here = [a for a in (blk if from_first else blk[r : r + 1] if r is not None else []) if a['post']['est'] is not None and a['post']['est'] >= e_tol]
+            rejected_here = [a for i, a in enumerate(blk) if (from_first or i == r) and r is not None and ((a['post']['est'] is not None and a['post']['est'] >= e_tol) or i in nonconv)]
             if r is not None and bi + 1 < len(blks) and rejected_here:
                 src = blk[r] if not from_first else min((a for a in blk if a['post']['dt_new'] is not None), key=lambda a: a['post']['dt_new'], default=blk[r])
                 nb = blks[bi + 1][0]
